@@ -171,6 +171,11 @@ def normalise(desc, opts=()):
     if strict:
         for ch in desc["chains"]:
             ch.pop("hdrop", None)  # nothing is added with --assign-only: no hydrogen may be missing
+    if "--neutraln" in opts or "--neutralc" in opts:
+        for ch in desc["chains"]:
+            # old-style names of cap hydrogens that the requested neutral state does not have (HT3 ...)
+            # are outside pdb2pqr's name maps
+            ch.pop("altmod", None)
     heavy = 0
     for ch in desc["chains"]:
         if "window" in ch:
@@ -218,7 +223,7 @@ def analyse(desc, ff, opts, s, r) -> Analysis:
         g = rec["group"]
         if g[0] == "water":
             g = ("water", rec["chain"], rec["seq"])
-        A.inp.setdefault(g, {})[rec["name"]] = rec["xyz"]
+        A.inp.setdefault(g, {})[rec.get("canon", rec["name"])] = rec["xyz"]  # keyed by canonical name
         coord_index[tuple(np.round(rec["xyz"], 3))] = g
     A.residues = []
     if not r.ok:
